@@ -3,8 +3,9 @@
 import Driver.Common
 import GivaroModel.Model.Primes
 import GivaroModel.Spec.PrimesSpec
--- @driver-mode primes Driver.primesLine
-namespace Driver
+-- @driver-mode primes Driver.Primes.primesLine
+namespace Driver.Primes
+open Driver
 open Givaro Givaro.Model.Primes Givaro.Spec.Primes
 
 /-- `mpz_probab_prime_p` is an oracle of the model; the driver instantiates it with the reference test -/
@@ -104,4 +105,4 @@ def primesLine (line : String) : String :=
       | _, _, _ => "BAD key/arity | " ++ line
     | _, _ => "BAD number | " ++ line
 
-end Driver
+end Driver.Primes
